@@ -143,7 +143,7 @@ class Ctx:
         replays on the simulator and violates an ensures clause; otherwise the verdict is undecided."""
         try:
             e = fn()
-        except (BindingError, AssertionError, KeyError, IndexError, AttributeError, TypeError) as ex:
+        except (BindingError, AssertionError, KeyError, IndexError, AttributeError, TypeError, z3.Z3Exception) as ex:
             self.degraded.append(f"{name}: {ex}"[:200])
             return False
         self.invs.append((name, B(e)))
